@@ -50,6 +50,8 @@ def materialise(t):
     for n in ("a", "b"):
         if t[n]:
             f[f"pages/{n}.md"] = page(f"Page {n.upper()}" if t[n] == 1 else None, f"{n.upper()}WORD [back](index.html) " + LINKS)
+    if t.get("dotted"):
+        f["pages/a.b.md"] = page("Page A dot B", "ABDOTWORD [back](index.html) " + LINKS)
     if t["txt"]:
         f["pages/notes.txt"] = "plain notes\n"
     if t["hid"]:
